@@ -293,7 +293,7 @@ impl<V> Item<V> {
 pub(crate) struct CacheProcessor<V, U, CB, S> {
     pub(crate) insert_buf_rx: Receiver<Item<V>>,
     pub(crate) stop_rx: Receiver<()>,
-    pub(crate) clear_rx: UnboundedReceiver<()>,
+    pub(crate) clear_rx: UnboundedReceiver<Sender<()>>,
     pub(crate) metrics: Arc<Metrics>,
     pub(crate) store: Arc<ShardedMap<V, U, S, S>>,
     pub(crate) policy: Arc<LFUPolicy<S>>,
@@ -355,7 +355,7 @@ pub struct Cache<
 
     pub(crate) stop_tx: Sender<()>,
 
-    pub(crate) clear_tx: UnboundedSender<()>,
+    pub(crate) clear_tx: UnboundedSender<Sender<()>>,
 
     pub(crate) callback: Arc<CB>,
 
@@ -425,20 +425,22 @@ where
             return Ok(());
         }
 
-        // stop the process item thread.
-        self.clear_tx.send(()).map_err(|e| {
+        // The processor thread discards what is buffered, clears the cache and acknowledges:
+        // clearing here, concurrently with the processor, let items buffered before the call
+        // be admitted after it, or be half applied (resident but not charged, or vice versa).
+        let (ack_tx, ack_rx) = bounded(1);
+        self.clear_tx.send(ack_tx).map_err(|e| {
             CacheError::SendError(format!("fail to send clear signal to working thread {}", e))
         })?;
 
         #[cfg(transparencies_stretto_verif)]
         crate::verif::yield_point("clear.after_signal");
-        self.policy.clear();
         #[cfg(transparencies_stretto_verif)]
         crate::verif::yield_point("clear.after_policy_clear");
-        self.store.clear();
         #[cfg(transparencies_stretto_verif)]
         crate::verif::yield_point("clear.after_store_clear");
-        self.metrics.clear();
+        // A disconnected acknowledgement means the processor is gone (the cache is closing).
+        let _ = ack_rx.recv();
 
         Ok(())
     }
@@ -625,7 +627,7 @@ where
         policy: Arc<LFUPolicy<S>>,
         insert_buf_rx: Receiver<Item<V>>,
         stop_rx: Receiver<()>,
-        clear_rx: UnboundedReceiver<()>,
+        clear_rx: UnboundedReceiver<Sender<()>>,
         metrics: Arc<Metrics>,
         callback: Arc<CB>,
     ) -> Self {
@@ -659,9 +661,13 @@ where
                         tracing::error!("fail to handle insert event: {}", e);
                     }
                 },
-                recv(self.clear_rx) -> _ => {
+                recv(self.clear_rx) -> ack => {
                     if let Err(e) = self.handle_clear_event() {
                         tracing::error!("fail to handle clear event: {}", e);
+                    }
+                    // release the caller of clear()
+                    if let Ok(ack) = ack {
+                        let _ = ack.send(());
                     }
                 },
                 recv(ticker) -> msg => {
@@ -676,7 +682,13 @@ where
 
     #[inline]
     pub(crate) fn handle_clear_event(&mut self) -> Result<(), CacheError> {
-        CacheCleaner::new(self).clean()
+        // discard what is buffered, then clear: nothing inserted before the clear() call
+        // survives it, and nothing is left half applied.
+        let res = CacheCleaner::new(self).clean();
+        self.policy.clear();
+        self.store.clear();
+        self.metrics.clear();
+        res
     }
 
     #[inline]
